@@ -353,6 +353,8 @@ class C09(Property):
             "and server kind); the ten spellings of the root path x all methods; trailing-slash / empty / dot variants of every path of a "
             "table with inner nodes; patterns needing cleaning; shorter-after-longer registration order; several patterns matching one "
             "path under different methods; raw request targets with query strings, ;params, encoded separators, absolute-URI form; "
+            "cases of kind target (every request a raw request line, Path/RawPath derived by the Coq model of net/url and compared with Go's, "
+            "response judged from the model-decoded path): ~650 fixed targets in non-default encodings + random ones; "
             "method-name vocabulary (39 names) on the router and at server level; the user's own recording router (WithRouter first / last). "
             "non-trivial = inside the side condition, a literal and a variable route compete at the same depth, at least one dispatch "
             "with variables and one 405 or 404 (server cases: a server started and some table is mounted more than once); "
@@ -360,8 +362,8 @@ class C09(Property):
     trusted_base = [
         "models theories/C09/Model.v and ServerModel.v are hand-written; tie = correspondence run (harness/cmd/c09) on generated cases",
         "path.Clean / path.Join are modelled for rooted paths and compared with Go's on every generated pattern, prefix and path",
-        "net/http request plumbing (request-line parsing and percent-decoding into URL.Path), context.WithValue / pathvar.Vars and "
-        "http.NotFound are exercised but not modelled: the model starts from the URL.Path the server derived",
+        "net/url's Path/RawPath for origin-form targets is modelled (Target.v) and compared per raw request in the target cases; other target forms, "
+        "context.WithValue / pathvar.Vars and http.NotFound are exercised but not modelled (router/server cases start from the URL.Path the server derived)",
         "constants (valid methods, Allow header and separator, 405, ':' and '/') are re-read from the source at every run (coq/gen/C09Consts.v); "
         "a declaration whose shape the extractor does not recognise keeps the model's value (noted as NOT RE-READ) and is judged by execution only",
         "the order rule for rest.RunOptions (WithRouter given last drops the earlier not-found / not-allowed / CORS options) is applied in tools/props/c09.py",
